@@ -565,14 +565,35 @@ func nodeOrder(root *crdt.Object) string {
 			key      string
 			from, to int
 			removed  bool
+			attrs    string
 		}
 		var runs []run
-		add := func(key string, off, n int, removed bool) {
-			if k := len(runs) - 1; k >= 0 && runs[k].key == key && runs[k].to == off && runs[k].removed == removed {
+		add := func(key string, off, n int, removed bool, attrs string) {
+			if k := len(runs) - 1; k >= 0 && runs[k].key == key && runs[k].to == off && runs[k].removed == removed && runs[k].attrs == attrs {
 				runs[k].to = off + n
 				return
 			}
-			runs = append(runs, run{key, off, off + n, removed})
+			runs = append(runs, run{key, off, off + n, removed, attrs})
+		}
+		// the attribute table of a node WITH its tombstones and tickets (an attribute tombstone decides
+		// whether a concurrent older Style of a peer takes effect, and does not show in Marshal())
+		sig := func(rht *crdt.RHT) string {
+			if rht == nil {
+				return ""
+			}
+			var l []string
+			for _, a := range rht.Nodes() {
+				v := "=" + a.Value()
+				if a.IsRemoved() {
+					v = " removed"
+				}
+				l = append(l, a.Key()+v+"@"+a.UpdatedAt().ToTestString())
+			}
+			if len(l) == 0 {
+				return "" // no table and an empty table are the same thing
+			}
+			sort.Strings(l)
+			return "{" + strings.Join(l, ",") + "}"
 		}
 		switch x := e.(type) {
 		case *crdt.Text:
@@ -580,7 +601,7 @@ func nodeOrder(root *crdt.Object) string {
 				if n.Value() == nil {
 					continue
 				}
-				add(n.ID().CreatedAt().Key(), n.ID().Offset(), n.Value().Len(), n.RemovedAt() != nil)
+				add(n.ID().CreatedAt().Key(), n.ID().Offset(), n.Value().Len(), n.RemovedAt() != nil, sig(n.Value().Attrs()))
 			}
 		case *crdt.Tree:
 			for _, n := range x.Nodes() {
@@ -588,7 +609,7 @@ func nodeOrder(root *crdt.Object) string {
 				if n.IsText() {
 					l = len(utf16.Encode([]rune(n.Value)))
 				}
-				add(n.ID().CreatedAt.Key(), n.ID().Offset, l, n.RemovedAt() != nil)
+				add(n.ID().CreatedAt.Key(), n.ID().Offset, l, n.RemovedAt() != nil, sig(n.Attrs))
 			}
 		default:
 			return false
@@ -596,7 +617,7 @@ func nodeOrder(root *crdt.Object) string {
 		var b strings.Builder
 		b.WriteString(e.CreatedAt().Key() + "=")
 		for _, r := range runs {
-			fmt.Fprintf(&b, "%s[%d,%d)%v ", r.key, r.from, r.to, r.removed)
+			fmt.Fprintf(&b, "%s[%d,%d)%v%s ", r.key, r.from, r.to, r.removed, r.attrs)
 		}
 		parts = append(parts, b.String())
 		return false
@@ -1235,6 +1256,12 @@ func (h *fuzzHist) sync(c *Ctx, i int) {
 					cl.firstOrderBad, cl.firstOrderBadByUndo = cs, cl.undoSeqs[cs]
 					if cl.undoSeqs[cs] {
 						c.Count("note:hidden-state-first-differs-at-an-undo-change")
+						if os.Getenv("PBFUZZ_DUMP") == "hidden" {
+							fmt.Fprintf(os.Stderr, "HIDDEN(undo) %s cs=%d\n  %s\n", h.line, cs, firstDiff(cl.orders[cs], got))
+							for _, op := range ch.Operations() {
+								fmt.Fprintf(os.Stderr, "  OP %T %s\n", op, op.ExecutedAt().ToTestString())
+							}
+						}
 					} else {
 						c.Count("note:hidden-state-first-differs-at-an-ordinary-change")
 						if cl.firstBad == 0 && cl.firstIdentBad == 0 {
